@@ -1415,6 +1415,7 @@ func (d *DotGit) rewritePackedRefsWithoutRef(name plumbing.ReferenceName) (err e
 
 	s := bufio.NewScanner(pr)
 	found := false
+	skipPeeled := false
 	for s.Scan() {
 		line := s.Text()
 		ref, err := d.processLine(line)
@@ -1422,8 +1423,17 @@ func (d *DotGit) rewritePackedRefsWithoutRef(name plumbing.ReferenceName) (err e
 			return err
 		}
 
+		// A "^<id>" line belongs to the reference line right before it;
+		// it has to go away together with that reference.
+		if skipPeeled && strings.HasPrefix(line, "^") {
+			skipPeeled = false
+			continue
+		}
+		skipPeeled = false
+
 		if ref != nil && ref.Name() == name {
 			found = true
+			skipPeeled = true
 			continue
 		}
 
